@@ -1,4 +1,4 @@
-(* C09 proofs, part 5: Db::_deserialize (also as the second half of DbGrid::_deserialize) with the candidate fixes. *)
+(* C09 proofs, part 5: Db::_deserialize (also as the second half of DbGrid::_deserialize) (the flags of cfg select the fixes; all on = the code as it is now). *)
 From Coq Require Import List ZArith QArith Bool Lia Arith.
 From Gst Require Import C09.Model C09.Readers C09.Spec C09.Proofs_prim C09.Proofs_loc.
 Import ListNotations.
@@ -83,8 +83,8 @@ Proof.
   destruct (0 <=? t) eqn:CT; [|exact IH].
   apply Z.leb_le in CT. replace (t <? 0) with false in H1 by (symmetry; apply Z.ltb_ge; lia). simpl in H1.
   apply Z.eqb_eq in H1. intros x [Hx|Hx]; [|apply IH; assumption]. subst x.
-  rewrite znth_nth in H1 by assumption. unfold znth in H1.
-  destruct (k <? 0); [lia|].
+  rewrite znth_nth in H1 by assumption. unfold entry_at, znth in H1.
+  destruct (zlen (nth (Z.to_nat t) locs []) <=? k); [lia|]. destruct (k <? 0); [lia|].
   eapply in_concat_nth. rewrite <- H1 at 1. apply nth_not_default_In. lia.
 Qed.
 Lemma post_ok_wf : forall tab locs ncol, post_ok tab locs = true -> zlen tab = ncol ->
@@ -174,7 +174,7 @@ Definition gt_ok (gt : option (Z * Z)) : Prop :=
 Definition wf_db_gt (gt : option (Z * Z)) (d : db) : Prop :=
   wf_db d /\ match gt with Some (_, ex) => d_nech d = ex | None => True end.
 
-(* the code as it is now (fix_rank = false) may still use a locator rank as a size (Throw 1 16) and return role lists with
+(* before fixes/C09_5 (fix_rank = false) the reader may use a locator rank as a size (Throw 1 16) and return role lists with
    fillers; with fixes/C09_5 (fix_rank = true) allocation is bounded and the object is well formed *)
 Definition dspec (gt : option (Z * Z)) (m : mon) (r : res (option db)) : Prop :=
   match r with
